@@ -239,7 +239,7 @@ instance (recKey : P SearchKey) [Mono recKey] : Mono (handleSearchKey recKey k f
 instance (recKey : P SearchKey) [Mono recKey] : Mono (parseSearchKeyList recKey fuel) := by unfold parseSearchKeyList; infer_instance
 theorem mono_parseSearchKey (d fuel : Nat) : Mono (parseSearchKey d fuel) := by
   induction d with
-  | zero => exact inferInstanceAs (Mono outOfFuel)
+  | zero => unfold parseSearchKey; infer_instance
   | succ d ih => unfold parseSearchKey; infer_instance
 instance : Mono (parseSearchKey d fuel) := mono_parseSearchKey d fuel
 instance : Mono (searchFirst fuel) := by unfold searchFirst; infer_instance
@@ -247,7 +247,7 @@ instance : Mono (parseSearch fuel) := by
   unfold parseSearch
   have : ∀ x : BStr × List SearchKey, Mono (match x with
       | (charset, first) => do
-        let more ← sepLoop .sp (parseSearchKey fuel fuel) fuel
+        let more ← sepLoop .sp (parseSearchKey searchBudget fuel) fuel
         let keys := first ++ more
         if keys.isEmpty then makeError
         else pure (Cmd.search charset keys) : P Cmd) := by
